@@ -414,6 +414,41 @@ func (c *c09Runner) observe(m *c09Model) []string {
 			}
 		}
 	}
+	// plain listings show exactly the keys whose newest entry is an object (a delete marker hides its key)
+	{
+		var wantKeys []string
+		for k, vs := range m.Keys {
+			if len(vs) > 0 && !vs[0].Marker {
+				wantKeys = append(wantKeys, k)
+			}
+		}
+		sort.Strings(wantKeys)
+		empty := ""
+		mx := int32(1000)
+		var v1, v2 []string
+		if l1, err := p.ListObjects(st.ctx(), &s3.ListObjectsInput{Bucket: sp(c09Bucket), Prefix: &empty, Delimiter: &empty, Marker: &empty, MaxKeys: &mx}); err != nil {
+			an = append(an, "list-objects-error:"+errClassAPI(err))
+		} else {
+			for _, o := range l1.Contents {
+				v1 = append(v1, getS(o.Key))
+			}
+			sort.Strings(v1)
+			if strings.Join(v1, ",") != strings.Join(wantKeys, ",") {
+				an = append(an, "list-objects:shows-other-keys-than-those-with-a-current-object")
+			}
+		}
+		if l2, err := p.ListObjectsV2(st.ctx(), &s3.ListObjectsV2Input{Bucket: sp(c09Bucket), Prefix: &empty, Delimiter: &empty, StartAfter: &empty, ContinuationToken: &empty, MaxKeys: &mx}); err != nil {
+			an = append(an, "list-objects-v2-error:"+errClassAPI(err))
+		} else {
+			for _, o := range l2.Contents {
+				v2 = append(v2, getS(o.Key))
+			}
+			sort.Strings(v2)
+			if strings.Join(v2, ",") != strings.Join(wantKeys, ",") {
+				an = append(an, "list-objects-v2:shows-other-keys-than-those-with-a-current-object")
+			}
+		}
+	}
 	// ListObjectVersions with every page size
 	var want []string
 	var ks []string
@@ -539,7 +574,7 @@ func C09(r *ck.Run) {
 	if r.Thorough() {
 		depth = 5
 	}
-	r.Rule(fmt.Sprintf("breadth-first search over every program of length <= %d of put / refused put (short body) / refused multipart completion (wrong object checksum) / delete / delete-by-version (newest, oldest, middle, null, a delete marker, unknown id) / copy / copy-by-version / multipart-complete / suspend / enable on two keys, from a fresh versioning-enabled bucket, from a bucket whose object predates enabling (null version) from a bucket whose key has a version plus a newer null version written while suspended, and from a Suspended bucket whose key has a version, on a real posix backend with versioning directory (xattr and sidecar metadata); a state is the shortest program reaching it, successors are computed by replay, states are deduplicated on (reference version model with ids canonicalised, file counts); after EVERY step a second backend instance checks GET by key, GET and HEAD by every version id, and ListObjectVersions with max-keys 1, 2, 1000 following the returned markers against the reference model; plus paged ListObjectVersions walks (max-keys 1, 2, 3) over key sets in which a sibling sorts before '/' with null versions, id versions and both: the walk ends and yields every version exactly once; distinct = distinct state", depth))
+	r.Rule(fmt.Sprintf("breadth-first search over every program of length <= %d of put / refused put (short body) / refused multipart completion (wrong object checksum) / delete / delete-by-version (newest, oldest, middle, null, a delete marker, unknown id) / copy / copy-by-version / multipart-complete / suspend / enable on two keys, from a fresh versioning-enabled bucket, from a bucket whose object predates enabling (null version) from a bucket whose key has a version plus a newer null version written while suspended, and from a Suspended bucket whose key has a version, on a real posix backend with versioning directory (xattr and sidecar metadata); a state is the shortest program reaching it, successors are computed by replay, states are deduplicated on (reference version model with ids canonicalised, file counts); after EVERY step a second backend instance checks GET by key, ListObjects / ListObjectsV2 (exactly the keys whose newest entry is an object), GET and HEAD by every version id, and ListObjectVersions with max-keys 1, 2, 1000 following the returned markers against the reference model; plus paged ListObjectVersions walks (max-keys 1, 2, 3) over key sets in which a sibling sorts before '/' with null versions, id versions and both: the walk ends and yields every version exactly once; distinct = distinct state", depth))
 	r.Assume("operations are at least one clock tick apart (file mtimes are pinned to a logical clock after each step); a DELETE without id of a key that has no versions may or may not create a marker (the answer says which); deleting an unknown version id may fail or be a no-op")
 	cfgs := []pxCfg{{Versioning: true}, {Versioning: true, Sidecar: true}}
 	if r.Thorough() {
